@@ -112,6 +112,10 @@ class Ctx:
                          phase=self.phase, shard=self.shard)
 
     def export(self) -> Dict[str, Any]:
+        # everything crossing the process boundary is made plain JSON (generated classes cannot be pickled)
+        return json.loads(json.dumps(self._export(), default=repr))
+
+    def _export(self) -> Dict[str, Any]:
         return {
             "evaluations": self.evaluations,
             "nontrivial": sorted(self.nontrivial),
